@@ -623,6 +623,8 @@ class World:
 		gen.start = start
 		self.binds_at_init = list(net.binds)
 		if cfg.get("trxcon"):
+			if not um_trxcon.available():
+				raise HarnessError("this plan needs the trxcon driver, which could not be built: %s" % (um_trxcon.build_error() or "")[-300:])
 			self.trxcon = um_trxcon.TrxconL1(self, trx[cfg["trxcon"]["trx"]])
 			net.tx_hook = self.on_trx_tx
 		if cfg.get("mode") == "fine":
@@ -784,11 +786,14 @@ class UmEngine:
 			toolkit.tk(m)
 		um_trxcon.setup()
 
+	def notes(self):
+		return ["trxcon profile disabled: the driver could not be built (%s)" % um_trxcon.build_error()[-200:]] if um_trxcon.build_error() else []
+
 	def generate(self, seed, prop, tier):
 		share = {"C03": 0.55, "C12": 0.2, "C05": 0.15}.get(prop, 0.0)
 		tshare = {"C05": 0.15, "C10": 0.05}.get(prop, 0.0)
 		pr = rng_for(seed, "profile").random()
-		if tshare and share <= pr < share + tshare:
+		if tshare and share <= pr < share + tshare and um_trxcon.available():
 			# the real trx_if.c (trxcon) is the MS-side L1 of this run
 			plan = um_trxcon.build_trxcon_plan(rng_for(seed, "plan"), tier)
 			plan["seed"] = seed
